@@ -49,7 +49,7 @@ pub fn scenarios() -> Vec<(String, Scenario)> {
     ];
     v.push(("continue-withheld".into(), sc));
     // large response, chunked response on HTTP/1.0
-    let sc = Scenario::one_conn(vec![b"GET /old HTTP/1.0\r\n\r\n".to_vec()], AppProgram::uniform(ReqPlan { read: ReadPlan::None, finish: Finish::Respond(RespSpec { status: 200, body_len: 5000, declared: false, threshold: None }) }));
+    let sc = Scenario::one_conn(vec![b"GET /old HTTP/1.0\r\n\r\n".to_vec()], AppProgram::uniform(ReqPlan { read: ReadPlan::None, finish: Finish::Respond(RespSpec { status: 200, body_len: 5000, declared: false, threshold: None, headers: 0 }) }));
     v.push(("http10-unknown-length".into(), sc));
     let sc = Scenario::one_conn(vec![get("/big")], AppProgram::uniform(ReqPlan { read: ReadPlan::None, finish: Finish::Respond(RespSpec::ok(70000)) }));
     v.push(("big-response".into(), sc));
@@ -129,7 +129,7 @@ pub fn run() -> i32 {
             chk(r["served_ok"].as_bool() == Some(true), &format!("server bound to {} serves a request before the drop", r["bind"]), &mut real_fail);
             chk(
                 r["first_attempt_500ms_after_drop_refused"].as_bool() == Some(true),
-                &format!("TCP server bound to {}: first connection attempt (to {}) 500 ms after drop is refused", r["bind"], r["connect_to"]),
+                &format!("TCP server bound to {}: first connection attempt (to {}) after the drop: the listening socket is gone within 3 s (watched passively) and the first attempt is refused", r["bind"], r["connect_to"]),
                 &mut real_fail,
             );
         }
